@@ -61,6 +61,10 @@ def run(chk):
         chk.extra["timed_edges"] = side["timed"]
         lean.check_theorems(chk, MODULE, THEOREMS)
         ac.handler_loops_obligation(chk)
+        # handlers return only if the device layer does: no blocking primitive, bounded/pinned loops, calls return under faults
+        from checks import blocking_common as bc
+        bc.obligations(chk)
+        bc.device_fault_search(chk, quick=chk.tier == "quick")
         res = ac.exploration(chk)
         predicted = {(a, b) for a, b in side["strict"]} | {(a, b) for a, b in side["timed"]}
         strict = {(a, b) for a, b in side["strict"]}
@@ -79,12 +83,15 @@ def run(chk):
             if f["property"] == "C09":
                 chk.violation(f["key"], f["what"], {"kind": "scenario", "scenario": f["scenario"], "step": f["step"], "explains": list(chk.broken)})
         chk.extra["distinct_nontrivial"] = max(2, len(res["asks"]))
-    chk.assumptions += ["handlers terminate (no loops in the translated programs; device calls are assumed to return)",
+    chk.assumptions += ["handlers terminate: no loops in the translated programs; device calls return — checked: no blocking primitive in controller/*.py, device loops bounded or pinned, the real serial device classes return under a fault at every position of an exchange; assumed: a serial peer that is spoken to answers (a silent EZO probe keeps EZOSensorDevice.__send reading for ever: outside the property's quantifier, see DESIGN.md)",
                         "pre-emption inside pykka / queue primitives is not modelled (partial)",
                         "a wait WITH timeout cannot be part of a permanent cycle: the waiter continues after the timeout"]
 
 
 def search(chk):
+    from checks import blocking_common as bc
+    if not any(v["key"].startswith("blocked-in-device-call") for v in chk.violations):
+        bc.device_fault_search(chk, quick=False)
     res = ac.exploration(chk)
     for k, f in sorted(res["findings"].items()):
         if f["property"] == "C09":
@@ -92,4 +99,9 @@ def search(chk):
 
 
 def replay(path):
+    d = json.load(open(path))
+    rp = d.get("replay", d)
+    if rp.get("kind") == "device-fault":
+        from checks import blocking_common as bc
+        return bc.replay_device(rp)
     return ac.replay(path)
